@@ -13,34 +13,61 @@ SPEC = {
     "inject": [("apollo-compiler", "src/validation/variable.rs", "compiler/c29.rs", "verif_c29")],
     "unsafe_checks": False,
     "timeout": {"quick": 900, "thorough": 3000},
-    "jobs": 8,
+    "jobs": 12,
     "harnesses": [
-        H("c29_assignable_shapes_d3", functions=F_A,
-          domain="all pairs of type refs, nesting <= 3 (16 shape pairs enumerated concretely; non-null markers and names {A,B,C} symbolic)", bound="depth 3"),
         H("c29_assignable_d2", functions=F_A, heavy=True,
-          domain="all pairs of type refs, nesting <= 2, names {A,B}", bound="depth 2, unwind 5"),
+          domain="all pairs of type refs, nesting <= 2, names {A,B} (shapes symbolic, one formula)", bound="depth 2, unwind 5"),
         H("c29_assignable_d3", functions=F_A, tiers=("thorough",), heavy=True, timeout=3000,
-          domain="all pairs of type refs, nesting <= 3, names {A,B,C}", bound="depth 3, unwind 6"),
-        H("c29_variable_usage_d1", functions=F_V, heavy=True,
-          domain="all (variable type, location type) nesting <= 1 over {A,B} x variable default in {absent, null, Boolean, Enum, [], {}, $v} x location default in {absent, present}",
-          bound="depth 1, unwind 4"),
-        H("c29_variable_usage_d2", functions=F_V, tiers=("thorough",), heavy=True,
-          domain="same, nesting <= 2", bound="depth 2, unwind 5"),
-        H("c29_variable_usage_null_default", functions=F_V, expect="finding", kf="C29_NULL_DEFAULT",
+          domain="all pairs of type refs, nesting <= 3, names {A,B,C} (shapes symbolic, one formula)", bound="depth 3, unwind 6"),
+        H("c29_usage_var_named", functions=F_V, heavy=True,
+          domain="variable type T x every location type with nesting <= 1 (6 shapes, forked) x names {A,B} x variable default in {absent, null, Boolean, Enum, [], {}, $v} x location default in {absent, present}",
+          bound="nesting <= 1"),
+        H("c29_usage_var_named_nn", functions=F_V, heavy=True,
+          domain="variable type T! x every location type with nesting <= 1 (6 shapes, forked) x names {A,B} x variable default in {absent, null, Boolean, Enum, [], {}, $v} x location default in {absent, present}",
+          bound="nesting <= 1"),
+        H("c29_usage_var_list", functions=F_V, heavy=True,
+          domain="variable type [T] / [T!]... outer nullable, inner nullable x every location type with nesting <= 1 (6 shapes, forked) x names {A,B} x variable default in {absent, null, Boolean, Enum, [], {}, $v} x location default in {absent, present}",
+          bound="nesting <= 1"),
+        H("c29_usage_var_list_nn", functions=F_V, heavy=True,
+          domain="variable type [T]! x every location type with nesting <= 1 (6 shapes, forked) x names {A,B} x variable default in {absent, null, Boolean, Enum, [], {}, $v} x location default in {absent, present}",
+          bound="nesting <= 1"),
+        H("c29_usage_var_list_of_nn", functions=F_V, heavy=True,
+          domain="variable type [T!] x every location type with nesting <= 1 (6 shapes, forked) x names {A,B} x variable default in {absent, null, Boolean, Enum, [], {}, $v} x location default in {absent, present}",
+          bound="nesting <= 1"),
+        H("c29_usage_var_list_nn_of_nn", functions=F_V, heavy=True,
+          domain="variable type [T!]! x every location type with nesting <= 1 (6 shapes, forked) x names {A,B} x variable default in {absent, null, Boolean, Enum, [], {}, $v} x location default in {absent, present}",
+          bound="nesting <= 1"),
+        H("c29_usage_var_l2_m0", functions=F_V, tiers=("thorough",), heavy=True,
+          domain="variable [[T]] x every location type with nesting <= 1", bound="nesting 2 on one side, <= 1 on the other"),
+        H("c29_usage_var_l2_m1", functions=F_V, tiers=("thorough",), heavy=True,
+          domain="variable [[T]]! x every location type with nesting <= 1", bound="nesting 2 on one side, <= 1 on the other"),
+        H("c29_usage_var_l2_m3", functions=F_V, tiers=("thorough",), heavy=True,
+          domain="variable [[T]!]! x every location type with nesting <= 1", bound="nesting 2 on one side, <= 1 on the other"),
+        H("c29_usage_var_l2_m7", functions=F_V, tiers=("thorough",), heavy=True,
+          domain="variable [[T!]!]! x every location type with nesting <= 1", bound="nesting 2 on one side, <= 1 on the other"),
+        H("c29_usage_loc_l2_m0", functions=F_V, tiers=("thorough",), heavy=True,
+          domain="location [[T]] x every variable type with nesting <= 1", bound="nesting 2 on one side, <= 1 on the other"),
+        H("c29_usage_loc_l2_m1", functions=F_V, tiers=("thorough",), heavy=True,
+          domain="location [[T]]! x every variable type with nesting <= 1", bound="nesting 2 on one side, <= 1 on the other"),
+        H("c29_usage_loc_l2_m5", functions=F_V, tiers=("thorough",), heavy=True,
+          domain="location [[T!]]! x every variable type with nesting <= 1", bound="nesting 2 on one side, <= 1 on the other"),
+        H("c29_usage_loc_l2_m7", functions=F_V, tiers=("thorough",), heavy=True,
+          domain="location [[T!]!]! x every variable type with nesting <= 1", bound="nesting 2 on one side, <= 1 on the other"),
+        H("c29_variable_usage_null_default", functions=F_V, expect="finding", kf="C29_NULL_DEFAULT", heavy=True,
           signature="null variable default must not license",
-          domain="variable default = null, nullable variable type, non-null location, no location default",
-          bound="depth 1"),
-        H("c29_impl_field_d1", functions=F_I, heavy=True,
-          domain="all (interface field type, implementation field type) nesting <= 1 over {A,B} x every subtype relation on 3 names (9 symbolic booleans)",
-          bound="depth 1, unwind 4"),
-        H("c29_impl_field_d2", functions=F_I, tiers=("thorough",), heavy=True,
-          domain="same, nesting <= 2 over {A,B,C}", bound="depth 2, unwind 5"),
+          domain="variable default = null, nullable named variable type, non-null named location, no location default",
+          bound="nesting 0"),
+        H("c29_impl_field_d2", functions=F_I, heavy=True,
+          domain="all (interface field type, implementation field type) nesting <= 2 over {A,B} x every subtype relation on 3 names (9 symbolic booleans)",
+          bound="depth 2, unwind 5"),
         H("c29_type_helpers", functions=F_H, heavy=True, domain="all type refs nesting <= 2 over {A,B}", bound="depth 2, unwind 5"),
-        H("c29_twin_must_fail", functions=F_A, expect="twin", heavy=True, domain="vacuity twin (wrong reference)", bound="depth 1"),
+        H("c29_twin_must_fail", functions=F_A, expect="twin", heavy=True, domain="vacuity twin (wrong reference)", bound="depth 2"),
     ],
     "stubs": [
         "alloc::fmt::format -> empty String (messages are not the subject)",
         "ahash::RandomState::new -> RandomState::with_seeds(1,2,3,4) (only to build an empty Schema value)",
+        "<ast::Type as Clone>::clone -> bounded structural copy for nesting <= 2 (variable-usage harnesses only; derive(Clone) is trusted; "
+        "deeper nesting hits a checked unreachable!)",
         "apollo_compiler::Schema::is_subtype -> arbitrary but fixed relation: table of 9 kani::any() booleans indexed by the two names "
         "(the real one needs IndexMap lookups, out of reach; its own correctness is outside the claim)",
     ],
